@@ -1,7 +1,7 @@
 """C01 - safe loading is confined to plain data (confinement argument over the program text)."""
 import sys
 
-from sa import report, effects as E, rules_registry as RR, rules_confine as RC
+from sa import report, effects as E, partial as P, rules_registry as RR, rules_confine as RC
 
 UNIVERSES = RR.SAFE_LOADERS + RR.BASE_LOADERS
 
@@ -39,6 +39,11 @@ def run(ctx, repo):
     RC.r_return_universe(ctx, repo, UNIVERSES, RC.SAFE_TAGS, label='safe')
     RC.r_frontend_no_sink(ctx, repo, UNIVERSES)
     RC.r_unsafe_only_in_unsafe(ctx, repo, UNIVERSES)
+    # clause (f): "or raises a YAML error" for malformed scalars under explicit core tags
+    reach = set()
+    for q in UNIVERSES:
+        reach |= set(RC.build_universe(repo, q).summaries)
+    P.r_partial_guarded(ctx, repo, ['constructor'], rule_id='R-YAML-ERROR-ONLY', skip=lambda f: f not in reach)
 
 
 if __name__ == '__main__':
